@@ -475,9 +475,147 @@ def replay(recipe, repo_root):
     return container_checks2.replay(recipe, repo_root)
 
 
+def check_noncompact(seed, tier):
+    """C07, cause 'an unused slot lies between live blocks': on foreign files whose table has such a hole every request that is
+    refused leaves the bytes of the file and the table of the open object exactly as they were"""
+    from basictdf import Tdf
+    from basictdf.tdfBlock import BlockType
+    warnings.simplefilter("ignore")
+    fails, n = [], 0
+    d = tempfile.mkdtemp(prefix="verif_hole_")
+    try:
+        for i in range(12 if tier == "quick" else 80):
+            rng = random.Random(f"{seed}:hole:{i}")
+            N = rng.choice([3, 4, 6, 14])
+            path = os.path.join(d, f"h{i}.tdf")
+            nop = rng.randint(1, min(N - 2, 3))
+            opaque = [(t, rng.randint(1, 3), bytes(rng.randrange(256) for _ in range(rng.choice([1, 7, 40, 300]))), comment_raw("opaque", rng))
+                      for t in rng.sample(OPAQUE_TYPES, nop)]
+            make_file(path, N, opaque, rng)
+            names = rng.sample(["Events", "EMG", "Data3D"], rng.randint(0, min(2, N - nop - 1)))
+            with Tdf(path).allow_write() as t:
+                for nm in names:
+                    t.add_block(gen_block(rng, nm))
+            nlive = nop + len(names)
+            raw = bytearray(open(path, "rb").read())
+            a = rng.randrange(nlive)                   # a live slot ...
+            b = rng.randrange(nlive, N)                # ... trades places with an unused one: a hole before live blocks
+            if a == nlive - 1 and b == nlive:
+                a = 0 if nlive > 1 else a
+            if a == nlive - 1 and b == nlive:
+                continue                               # moving the last live entry one slot down leaves no live block after the hole
+            ra, rb = bytes(raw[64 + 288 * a: 64 + 288 * (a + 1)]), bytes(raw[64 + 288 * b: 64 + 288 * (b + 1)])
+            raw[64 + 288 * a: 64 + 288 * (a + 1)], raw[64 + 288 * b: 64 + 288 * (b + 1)] = rb, ra
+            open(path, "wb").write(bytes(raw))
+            free = [nm for nm in TYPE_OF if nm not in names]
+            reqs = [(f"add_block({free[0]})", lambda t: t.add_block(gen_block(rng, free[0])))]
+            if free[0] in SETTER:
+                reqs.append((f"{SETTER[free[0]]} = block (type absent)", lambda t: setattr(t, SETTER[free[0]], gen_block(rng, free[0]))))
+            for nm in names:
+                reqs.append((f"replace_block({nm})", lambda t, nm=nm: t.replace_block(gen_block(rng, nm))))
+                reqs.append((f"replace_block({nm}, comment)", lambda t, nm=nm: t.replace_block(gen_block(rng, nm), comment="c")))
+                if nm in SETTER:
+                    reqs.append((f"{SETTER[nm]} = block (type present)", lambda t, nm=nm: setattr(t, SETTER[nm], gen_block(rng, nm))))
+            for what, call in reqs:
+                n += 1
+                case = dict(hole=i, N=N, request=what, swapped=[a, b])
+                before = open(path, "rb").read()
+                with Tdf(path).allow_write() as t:
+                    ents = [(e.type.value, e.format, e.offset, e.size, e.comment) for e in t.entries]
+                    try:
+                        call(t)
+                        raised = None
+                    except Exception as ex:
+                        raised = ex
+                    now = [(e.type.value, e.format, e.offset, e.size, e.comment) for e in t.entries]
+                    if raised is not None and now != ents:
+                        fails.append(_f("C07", "C07.session", f"{what} on a table with an unused slot between live blocks was refused ({type(raised).__name__}) but changed the open object's table", case, seed))
+                after = open(path, "rb").read()
+                if raised is not None and after != before:
+                    fails.append(_f("C07", "C07.bytes", f"{what} on a table with an unused slot between live blocks was refused ({type(raised).__name__}) but changed the file "
+                                    f"({sum(1 for x, y in zip(before, after) if x != y)} bytes differ, length {len(before)} -> {len(after)})", case, seed))
+                if after != before:
+                    open(path, "wb").write(before)
+            if len(fails) > 6:
+                break
+    finally:
+        shutil.rmtree(d, ignore_errors=True)
+    return dict(what="refused requests on foreign files with an unused slot between live blocks (real code)", cases=n, label="bounded",
+                bound="tables of 3..14 slots, one live entry swapped with an unused one, add / replace / setter requests"), fails
+
+
+def check_large_tail(seed, tier):
+    """C03 C04 C09 C10: removing / replacing a block that has more than a megabyte of other blocks after it (tail moves larger than
+    any buffer the implementation may use)"""
+    from basictdf import Tdf
+    from basictdf.tdfBlock import BlockType
+    warnings.simplefilter("ignore")
+    fails, n = [], 0
+    d = tempfile.mkdtemp(prefix="verif_big_")
+    try:
+        rng = random.Random(f"{seed}:big")
+        path = os.path.join(d, "big.tdf")
+        Tdf.new(path)
+        model = Model(14, [])
+
+        def entry(nm, b, comment="Generated by basicTDF"):
+            return dict(type=TYPE_OF[nm], format=b.format.value if not isinstance(b.format, int) else int(b.format), payload=real_write(nm, b), comment=comment,
+                        cdate=secs(b.creation_date), mdate=secs(b.last_modification_date), fresh=True)
+        from basictdf.tdfEMG import EMG, EMGTrack
+        nbig = (1 << 18) + rng.randint(1, 4000)                          # two signals: > 2 MiB of samples
+        big = EMG(1000, nbig)
+        for si, lab in enumerate(("big a", "big b")):
+            big.addSignal(EMGTrack(lab, np.random.default_rng(seed * 7 + si).standard_normal(nbig).astype("<f4")))
+        ev, d3, op = gen_block(rng, "Events"), gen_block(rng, "Data3D"), gen_block(rng, "OpticalSetup")
+        steps = [("add Events", lambda t: t.add_block(ev), lambda: model.live.append(entry("Events", ev))),
+                 ("add Data3D", lambda t: t.add_block(d3), lambda: model.live.append(entry("Data3D", d3))),
+                 ("add big EMG", lambda t: t.add_block(big), lambda: model.live.append(entry("EMG", big))),
+                 ("add OpticalSetup", lambda t: t.add_block(op), lambda: model.live.append(entry("OpticalSetup", op)))]
+        ev2 = gen_block(rng, "Events")
+
+        def drop(ty):
+            model.live[:] = [e for e in model.live if e["type"] != ty]
+        steps += [("remove Events (first of 4)", lambda t: t.remove_block(BlockType(TYPE_OF["Events"])), lambda: drop(TYPE_OF["Events"])),
+                  ("add Events again", lambda t: t.add_block(ev2), lambda: model.live.append(entry("Events", ev2))),
+                  ("replace Data3D (first, big tail)", lambda t: t.replace_block(d3), lambda: (drop(TYPE_OF["Data3D"]), model.live.append(entry("Data3D", d3)))),
+                  ("remove big EMG", lambda t: t.remove_block(BlockType(TYPE_OF["EMG"])), lambda: drop(TYPE_OF["EMG"]))]
+        log = []
+        with Tdf(path).allow_write() as t:
+            for desc, call, upd in steps:
+                n += 1
+                log.append(desc)
+                case = dict(big=True, ops=list(log))
+                try:
+                    call(t)
+                    upd()
+                except Exception as ex:
+                    fails.append(_f("C11,C04,C10", "C11.valid_operation_refused", f"valid operation '{desc}' raised {ex!r}", case, seed))
+                    break
+                fl, _ = check_disk(path, model, case, seed, f"after '{desc}'")
+                fails += fl
+                fails += check_memory(t, path, model, case, seed, f"after '{desc}'")
+                for m in model.live:
+                    m.pop("fresh", None)
+                if fails:
+                    break
+    finally:
+        shutil.rmtree(d, ignore_errors=True)
+    return dict(what="add/remove/replace with more than 2 MiB of blocks after the one touched (real code)", cases=n, label="bounded", bound="one history, 8 operations"), fails
+
+
 def _mk(props):
     def run(seed, tier, root=None):
-        return run_histories(seed, tier, root, props)
+        st, fails = run_histories(seed, tier, root, props)
+        extra = []
+        if "C07" in props:
+            extra.append(check_noncompact(seed, tier))
+        if any(p in props for p in ("C03", "C04", "C09", "C10")):
+            extra.append(check_large_tail(seed, tier))
+        for st2, fl in extra:
+            st["cases"] += st2["cases"]
+            st["bound"] += "; " + st2["what"] + ": " + st2["bound"]
+            fails += [f for f in fl if _relevant(f, props)]
+        return st, fails
     return run
 
 
